@@ -168,3 +168,17 @@ MUTANTS['C16'] = (
 # Mutants the law monitor C16 is known NOT to see (both sides of every law share
 # the defect, or no law mentions the operation); the model-based C01/C03 do:
 #   C01 intersperse-order-key, C03 slice-foreign-key-forwarded
+
+MUTANTS['C08'] = [
+  ('map-iter-eager-list', [(C, "            yield from map(self.map_function, self.input_dataset)", "            yield from [self.map_function(x) for x in self.input_dataset]")]),
+  ('filter-predicate-twice', [(C, "            for example in self.input_dataset:\n                total_count += 1\n                if self.filter_function(example):\n                    yield example", "            for example in self.input_dataset:\n                total_count += 1\n                if self.filter_function(example) and self.filter_function(example):\n                    yield example")]),
+  ('batch-getitem-fetches-whole-input', [(C, "            input_index = item * self.batch_size\n            current_batch = []", "            input_index = item * self.batch_size\n            _all = list(self.input_dataset)\n            current_batch = []")]),
+  ('slice-iter-iterates-input-and-skips', [(C, "        else:\n            for idx in self.slice:\n                yield self.input_dataset[idx]", "        else:\n            _all = list(self.input_dataset)\n            for idx in self.slice:\n                yield _all[idx]")]),
+  ('concat-len-by-listing', [(C, "        return sum([len(i) for i in self.input_datasets])", "        return sum([len(list(i)) for i in self.input_datasets])")]),
+  ('shuffle-touches-examples', [(C, "            permutation = np.arange(len(self))\n            rng.shuffle(permutation)", "            permutation = np.arange(len(list(self)))\n            rng.shuffle(permutation)")]),
+  ('local-style-readahead-in-batch', [(C, "        current_batch = list()\n        for element in self.input_dataset:\n            current_batch.append(element)\n            if len(current_batch) >= self.batch_size:\n                yield current_batch\n                current_batch = list()", "        current_batch = list()\n        pending = None\n        for element in self.input_dataset:\n            current_batch.append(element)\n            if len(current_batch) >= self.batch_size:\n                if pending is not None:\n                    yield pending\n                pending = current_batch\n                current_batch = list()\n        if pending is not None:\n            yield pending")]),
+  ('cache-computes-neighbour', [(C, "                value = self.input_dataset[item]\n                if self.check():", "                value = self.input_dataset[item]\n                if item + 1 < len(self):\n                    self.input_dataset[item + 1]\n                if self.check():")]),
+  ('zip-getitem-evaluates-all-first', [(C, "            return tuple([\n                ds[item] for ds in self.input_datasets\n            ])", "            [ds[0] for ds in self.input_datasets]\n            return tuple([\n                ds[item] for ds in self.input_datasets\n            ])")]),
+  ('prefetch1-buffer-plus-three', [(C, "        return single_thread_prefetch(input_dataset, self.buffer_size)", "        return single_thread_prefetch(input_dataset, self.buffer_size + 3)")]),
+  ('items-getitem-via-iteration', [(C, "            return self.keys()[item], self.input_dataset[item]", "            return list(self)[item]")]),
+]
